@@ -499,6 +499,10 @@ class Trace:
                         if f[0] == "upd":
                             rem_ = kv_field(l, "rem")
                             for item_ in ([] if rem_ in (None, "-") else rem_.split(";")):
+                                if not item_.split(":")[0].isdigit():
+                                    for p_ in ("C01", "C02", "C03"):
+                                        self.add(p_, i, "the server sent an update message whose removal list names an entity it does not have (garbled message): %s" % l)
+                                    continue
                                 e_ = int(item_.split(":")[0])
                                 if e_ not in view:
                                     why = ("the message to client %d carries a removal record for entity %d, which the server does not replicate to it at this tick "
@@ -508,7 +512,10 @@ class Trace:
                                         self.add("C08", i, why)
                         if f[0] == "upd":
                             des = kv_field(l, "des")
-                            for e_ in ([] if des in (None, "-") else [int(x) for x in des.split(";")]):
+                            if des not in (None, "-") and any(not x.isdigit() for x in des.split(";")):
+                                for p_ in ("C01", "C02", "C03"):
+                                    self.add(p_, i, "the server sent an update message whose despawn list names an entity it does not have (garbled message): %s" % l)
+                            for e_ in ([] if des in (None, "-") else [int(x) for x in des.split(";") if x.isdigit()]):
                                 if e_ in view and e_ not in body:
                                     why = ("client %d is told to despawn entity %d, which the server still replicates to it at this tick and does not send again: %s" % (c, e_, l))
                                     for p_ in ("C01", "C03", "C08"):
